@@ -7,6 +7,7 @@
 """Handles parsing of Python code."""
 
 import _ast
+import ast
 import operator
 
 from mako import _ast_util
@@ -273,8 +274,29 @@ class ParseFunc(_ast_util.NodeVisitor):
 
 class ExpressionGenerator:
     def __init__(self, astnode):
+        self.astnode = astnode
         self.generator = _ast_util.SourceGenerator(" " * 4)
-        self.generator.visit(astnode)
 
     def value(self):
-        return "".join(self.generator.result)
+        # SourceGenerator predates much of the expression syntax: operators
+        # such as ** and @, ** unpacking, f-strings, assignment expressions,
+        # keyword-only parameters etc. either fail or come out as source
+        # that means something else.  its output is used only if it parses
+        # back to the same tree.
+        try:
+            self.generator.visit(self.astnode)
+            source = "".join(self.generator.result)
+            if self._parses_as(source, self.astnode):
+                return source
+        except Exception:
+            pass
+        return ast.unparse(self.astnode)
+
+    @staticmethod
+    def _parses_as(source, astnode):
+        if isinstance(astnode, ast.mod):
+            mode = "exec" if isinstance(astnode, ast.Module) else "eval"
+            parsed = _ast_util.parse(source, mode=mode)
+        else:
+            parsed = _ast_util.parse(source, mode="eval").body
+        return ast.dump(parsed) == ast.dump(astnode)
